@@ -237,7 +237,9 @@ func (pipeline *IncrementalPipeline) sync(job *job, ctx context.Context) (int, e
 							parallelisms = 1
 						}
 
-						psize := int(math.Round(float64(len(entities)) / float64(parallelisms)))
+						// round up: rounding to nearest leaves the tail of the batch uncovered (7 entities, 5 workers)
+						// or makes the last chunks start beyond the batch (12 entities, 8 workers)
+						psize := int(math.Ceil(float64(len(entities)) / float64(parallelisms)))
 						workResults := make([]presult, parallelisms)
 
 						local := func(workId int, lentities []*server.Entity, wg *sync.WaitGroup) {
@@ -264,7 +266,10 @@ func (pipeline *IncrementalPipeline) sync(job *job, ctx context.Context) (int, e
 						index := 0
 						for i := 0; i < parallelisms; i++ {
 							from := index
-							to := index + psize
+							if from > len(entities) {
+								from = len(entities)
+							}
+							to := from + psize
 
 							if to >= len(entities) {
 								to = index + (len(entities) - index)
